@@ -18,6 +18,9 @@ CONFIGS = [
                                   "use_cache_subfolder_for_synctoken": "True"}}),
     ("mfs+mtime", {"storage": {"use_mtime_and_size_for_item_cache": "True"}}),
     ("mfs+cachefolder", {"storage": {"filesystem_cache_folder": "@tmp"}}),
+    ("mfs+latin1", {"encoding": {"stock": "iso-8859-1"}}),
+    ("nolock+latin1+mtime", {"storage": {"type": "multifilesystem_nolock", "use_mtime_and_size_for_item_cache": "True"},
+                            "encoding": {"stock": "iso-8859-1", "request": "utf-8"}}),
     ("nolock+cachefolder+mtime", {"storage": {"type": "multifilesystem_nolock", "filesystem_cache_folder": "@tmp",
                                               "use_mtime_and_size_for_item_cache": "True"}}),
 ]
@@ -43,6 +46,10 @@ def run_history(ctx, rng, conf_name, conf, length, hist_id, check_post=False):
             ctx.case("%s:%s:%d" % (conf_name, r["method"], obs["status"]),
                      sample={"request": {k: v for k, v in r.items() if k != "objs"}, "status": obs["status"]},
                      key=[hist_id, i], nontrivial=obs["status"] < 300)
+            for d in diffs:
+                if d.startswith("served content differs"):
+                    ctx.violation("GET returns an object with other content than was stored (%s): %s" % (conf_name, d),
+                                  {"config": conf_name, "history": [(u, {k: v for k, v in x.items() if k != "objs"}) for u, x in reqs]})
             if diffs:
                 ctx.disagree("request history vs ideal DAV store (%s)" % conf_name,
                              {"config": conf_name, "history": [(u, {k: v for k, v in x.items()}) for u, x in reqs]}, diffs[:3],
@@ -89,6 +96,17 @@ def oracle(ctx, conf, reqs, conf_name):
             if listed != expect:
                 ctx.violation("PROPFIND Depth 1 of /%s lists %s but the storage API holds %s" % ("/".join(e["path"]), listed, expect),
                               {"config": conf_name, "history": reqs})
+        # every object is served with the text it was stored with (all pool objects carry "café")
+        import re
+        from common import dump_store
+        for cpath, ce in dump_store(fresh.app, with_text=False).items():
+            for href in ce["items"]:
+                st, hd, text = fresh.app.request("GET", cpath.rstrip("/") + "/" + href, login="u:pw")
+                bad = [l for l in re.findall(r"(?:SUMMARY|FN):c\d+[^\r\n]*", text) if not l.endswith(" caf\u00e9")] if st == 200 else ["GET answered %d" % st]
+                if bad:
+                    ctx.violation("object %s/%s is served as %r, it was stored with the text 'c<n> caf\u00e9'" % (cpath, href, bad[:2]),
+                                  {"config": conf_name, "history": [(u, {k: v for k, v in x.items() if k != "objs"}) for u, x in reqs]})
+                    return
     finally:
         fresh.close()
 
